@@ -20,6 +20,8 @@ CLAIMED = {
          "mutual exclusion of the backend lock is assumed (Lock model); FairLock is a BOUNDED stand-in (drivers/fair_lock.py, 6318 schedules); AsyncTCPNetworkClient.send_packet / the blocking clients' threading locks are not under contract; from discipline to 'contiguous on the wire' is the written critical-section argument"),
  "C14": ("§4 C14", "On every exit path - normal, failing, and CancelledError delivered at any suspension point - of aclose_forcefully, the stapled close helper, AsyncTLSStreamTransport.aclose/wrap, the three stream endpoints, the datagram endpoint, the low-level server client, the high-level server-side client and the async TCP/UDP clients, the wrapped transport's close has been requested (ghost close_requested); both halves of a stapled transport are closed even if the first close fails.",
          "abstract transport aclose() requests the close on entry (assumed); cancellation only at suspension points of the backend models; cancel scopes swallow only their own body's CancelledError; lock/guard coupling is a rely invariant; the asyncio socket adapter's aclose and promptness of a second close are not covered; KNOWN FINDING F7 (three call sites) is reported, not repaired"),
+ "C16": ("§4 C16", "Atomic-section invariants of the per-client state of the datagram server: A (no task => empty queue) holds at every suspension point of the listener's handler and after the task-done hook, which restarts a task exactly when datagrams are waiting; B: a task is marked pending only from the no-task state (a second one is refused); C: the queue is FIFO - push appends at the tail before its first suspension and does not suspend for an idle client, pops take the head.",
+         "the listener calls the handler in arrival order and the task group eventually runs started tasks (assumed; 'eventually handled' is not claimed, only 'never dropped'); __client_coroutine / __client_coroutine_inner_loop (async-generator plumbing) are assumed contracts; the condition variable, weak caches and task group follow small models"),
  "C19": ("§4 C19", "Socket ownership: every exit of _create_connection_impl (normal, all attempts failed, cancelled at the await, unexpected BaseException from socket()/bind()/setblocking()) leaves exactly the returned socket open (loop invariants on the count of open sockets); try_connect hands its socket over as the winner or closes it, under the rely condition that concurrent attempts only set a winner they own, and signals completion on every exit.",
          "socket()/bind()/setblocking()/close() follow the RawSocket model; connect_socket (abstract) creates/closes nothing; except* is encoded conservatively; the outer _staggered_race_connection_impl (task group, addrinfo interleaving) is NOT under contract: that the task group joins its children and the final winner.close() on failure are assumed"),
  "C20": ("§4 C20", "WriteFlowControl keeps the atomic-section invariant J ((not paused or lost) => no pending drain waiter) through pause_writing, resume_writing, connection_lost and drain - proved at every suspension point of drain under a rely clause letting callbacks and other tasks change the state arbitrarily within J, including cancellation of the awaiting sender; resume/loss loops complete every pending waiter (loop invariants over a counted model of the waiter collection); the socket adapter hands bytes to the transport once, in order, and returns only after drain() returned.",
